@@ -48,7 +48,7 @@ CHECK = {
          "case_timeout": 600},
         # parallel library (real TBB, MANIFOLD_PAR=1): operands of >= 1e4 triangles cross the autoPolicy thresholds
         {"name": "general-par", "variant": "tbb", "harness": "c02_boolean.cpp", "tiers": ("thorough",),
-         "cases": {"quick": 0, "thorough": 40},
+         "cases": {"quick": 0, "thorough": 150},
          "params": {"sharedTris": 10, "ownTris": 10, "strata": 3, "detail": 8, "pBatch": 0.2, "pChain": 0.3},
          "case_timeout": 1200},
     ],
